@@ -34,7 +34,7 @@ Open Scope N_scope.
 (** ---------------------------------------------------------------- value enums *)
 (** One variant of a [#[derive(ValueEnum)]] enum: [#[value(skip)]], and the possible value
     built by [lits] (cased name, aliases). *)
-Record vvariant := mkVv { vv_skip : bool; vv_pv : possible_value }.
+Record vvariant := mkVv { vv_skip : bool; vv_pv : possible_value; vv_hide : bool (* [#[value(hide = true)]] *) }.
 Definition venum := list vvariant.
 
 (** [lits]: the non-skipped variants, each with its declaration index. *)
@@ -56,6 +56,18 @@ Definition ve_to_possible_value (e : venum) (i : nat) : option possible_value :=
   match nth_error e i with
   | Some v => if vv_skip v then None else Some (vv_pv v)
   | None => None
+  end.
+
+(** [EnumValueParser::<E>]: the possible values [E::value_variants().filter_map(to_possible_value)] -- the
+    NON-SKIPPED variants, hidden ones included -- each with its [is_hide_set] flag.  [parse_ref] accepts a
+    string iff one of them [matches] it under the argument's [ignore_case] (no [is_hide_set] filter: that
+    filter is applied to the error message's list only), which is [PossibleValuesParser] over the same
+    list: [Cmd.VPPossible ic (enum_pvs e)] (equal language: [DeriveEnum.enum_parser_language]; the one
+    difference is the error KIND for a non-UTF-8 string: [invalid_value] here, [invalid_utf8] there). *)
+Fixpoint enum_pvs (e : venum) : list (possible_value * bool) :=
+  match e with
+  | [] => []
+  | v :: t => if vv_skip v then enum_pvs t else (vv_pv v, vv_hide v) :: enum_pvs t
   end.
 
 (** ---------------------------------------------------------------- types *)
@@ -138,16 +150,16 @@ Combined Scheme derive_mutind from node_mind, nodes_mind, variants_mind.
 Definition i64_lo : Z := i64_min.
 Definition i64_hi : Z := i64_max.
 
-(** [value_parser!(T)] as a [Cmd.vparser].  An enum's [EnumValueParser] is not among the parsers
-    of the parser model; [VPString] stands in for it there and [enum_ok] below supplies the check
-    the real parser makes (see [derived_parse]). *)
-Definition vp_of (counter : bool) (t : vty) : vparser :=
+(** [value_parser!(T)] as a [Cmd.vparser].  An enum's [EnumValueParser] is the parser model's
+    [VPPossible] over [enum_pvs e]; [ic] is the [ignore_case] of the argument the parser is attached to
+    ([parse_ref] reads [arg.is_ignore_case_set()]; [Cmd.pv_coherent]). *)
+Definition vp_of (counter : bool) (ic : bool) (t : vty) : vparser :=
   match t with
   | TBool => VPBool
   | TU8 => if counter then VPCount else VPI64 0 255
   | TI64 => VPI64 i64_lo i64_hi
   | TStr => VPString
-  | TEnum _ => VPString
+  | TEnum e => VPPossible ic (enum_pvs e)
   end.
 
 (** The typed value the parser stores for a raw value. *)
@@ -196,7 +208,7 @@ Definition field_arg (override_required : bool) (f : field) : arg :=
   let a := a <| a_action := Some act |> in
   let a := match f_ty f with
            | TyUnit => a                                       (* no value_parser *)
-           | _ => a <| a_vp := Some (vp_of (is_count (Some act)) (f_t f)) |>
+           | _ => a <| a_vp := Some (vp_of (is_count (Some act)) (f_icase f) (f_t f)) |>
            end in
   let a := match f_ty f with
            | TyOptionOption => a <| a_num := Some r_opt |>
@@ -497,8 +509,11 @@ Fixpoint update_seq (d : dinput) (vs : list dval) (ms : list matches) : xres (li
   end.
 
 (** ---------------------------------------------------------------- Parser trait glue *)
-(** Every raw value held for an enum-typed field is a name of the enum: the check the real
-    [EnumValueParser] makes inside the parser, which the stand-in [VPString] does not. *)
+(** Every raw value held for an enum-typed field is a name of the enum.  NOT part of the derived parser
+    any more (until round 5 [VPString] stood in for [EnumValueParser] inside the parser model and
+    [derived_parse] made this check afterwards): the generated argument now carries the real parser
+    ([vp_of] = [VPPossible ic (enum_pvs e)]), and [enum_ok_nodes] of the matches of a successful parse is a
+    THEOREM ([DeriveEnum.parse_enum_ok]); the predicate stays as the vocabulary of that theorem. *)
 Definition entry_ok (t : vty) (ic : bool) (i : id) (m : matches) : bool :=
   match t with
   | TEnum _ => match fm_get i (ms_args m) with
@@ -533,13 +548,6 @@ Inductive presult_d :=
 | PPanic (site : N)
 | PInvalid.                    (* the generated command fails clap's debug assertions *)
 
-(** the command's own parse: [command().try_get_matches_from(argv)], with the enum check *)
-Definition cmd_parse (c : cmd) (ns : nodes) (argv : list bytes) : outcome :=
-  match parse_top c argv with
-  | OOk m => if enum_ok_nodes ns m then OOk m else OErr (mkError EInvalidValue [] false [] None)
-  | o => o
-  end.
-
 Definition of_outcome (o : outcome) (k : matches -> presult_d) : presult_d :=
   match o with
   | OOk m => k m
@@ -553,11 +561,11 @@ Definition of_xres (r : xres (list dval)) : presult_d :=
 
 (** [Parser::try_parse_from] *)
 Definition derived_parse (d : dinput) (argv : list bytes) : presult_d :=
-  of_outcome (cmd_parse (derive_cmd d) (d_nodes d) argv) (fun m => of_xres (extract d m)).
+  of_outcome (parse_top (derive_cmd d) argv) (fun m => of_xres (extract d m)).
 
 (** [Parser::try_update_from] *)
 Definition derived_update (d : dinput) (vs : list dval) (argv : list bytes) : presult_d :=
-  of_outcome (cmd_parse (derive_cmd_for_update d) (d_nodes d) argv) (fun m => of_xres (update d vs m)).
+  of_outcome (parse_top (derive_cmd_for_update d) argv) (fun m => of_xres (update d vs m)).
 
 (** ---------------------------------------------------------------- canonical printer *)
 (** A hand-written inverse of the derived parser (the same function is written in Rust for every
